@@ -167,6 +167,12 @@ impl IntrospectionEntry {
         debug_assert!(!self.conn_ids.is_empty());
 
         let idx = rand::rng().random_range(0..self.conn_ids.len());
+
+        #[cfg(feature = "verif-hooks")]
+        let idx = match aldrin_core::verif::next_uuid() {
+            Some(uuid) => (uuid.as_u128() % self.conn_ids.len() as u128) as usize,
+            None => idx,
+        };
         let conn_id = &self.conn_ids[idx];
 
         self.queried = Some(IntrospectionQuery::new(conn_id.clone(), serial));
@@ -247,5 +253,34 @@ impl RemoveConn {
             serial,
             result: RemoveConnResult::Continue(type_id),
         }
+    }
+}
+
+#[cfg(feature = "verif-hooks")]
+impl IntrospectionDatabase {
+    pub(crate) fn verif_snapshot(
+        &self,
+    ) -> std::collections::BTreeMap<TypeId, crate::verif::IntrospectionEntrySnapshot> {
+        self.entries
+            .iter()
+            .map(|(&type_id, entry)| {
+                (
+                    type_id,
+                    crate::verif::IntrospectionEntrySnapshot {
+                        conns: entry.conn_ids.iter().map(ConnectionId::verif_raw).collect(),
+                        introspection: entry.introspection.clone(),
+                        queried: entry
+                            .queried
+                            .as_ref()
+                            .map(|q| (q.conn_id.verif_raw(), q.serial)),
+                        pending: entry
+                            .pending
+                            .iter()
+                            .map(|q| (q.conn_id.verif_raw(), q.serial))
+                            .collect(),
+                    },
+                )
+            })
+            .collect()
     }
 }
